@@ -411,7 +411,7 @@ func (s *upStorage) Upload(ctx context.Context, r io.Reader, id string) error {
 
 // ---------------------------------------------------------------- one run = one uploader life-cycle on a fresh storage
 
-type upRun struct {
+type uplRun struct {
 	w        *upWorld
 	st       *upStorage
 	prov     *upProvider
@@ -420,8 +420,8 @@ type upRun struct {
 	compress bool
 }
 
-func (w *upWorld) newRun(vacuum, compress bool, mode string, n int) *upRun {
-	r := &upRun{w: w, vacuum: vacuum, compress: compress}
+func (w *upWorld) newRun(vacuum, compress bool, mode string, n int) *uplRun {
+	r := &uplRun{w: w, vacuum: vacuum, compress: compress}
 	r.st = &upStorage{w: w, plan: func() upPlan { return upPlan{} }}
 	r.prov = &upProvider{p: store.NewProvider(w.s, vacuum, compress)}
 	r.u = backup.NewUploader(r.st, r.prov, time.Hour)
@@ -429,20 +429,20 @@ func (w *upWorld) newRun(vacuum, compress bool, mode string, n int) *upRun {
 	return r
 }
 
-func (r *upRun) restart(interval time.Duration) {
+func (r *uplRun) restart(interval time.Duration) {
 	emit("h", "restart")
 	r.u = backup.NewUploader(r.st, r.prov, interval)
 }
 
 // tick runs one round by hand.
-func (r *upRun) tick(pl upPlan) {
+func (r *uplRun) tick(pl upPlan) {
 	r.st.plan = func() upPlan { return pl }
 	r.st.cur = upPlan{}
 	r.u.VerifUpload(context.Background())
 }
 
 // quiesce: storage healthy, one full round (retried when Provide itself failed), then remote == database.
-func (r *upRun) quiesceCheck() error {
+func (r *uplRun) quiesceCheck() error {
 	st := r.st
 	st.mu.Lock()
 	has, data, id := st.has, st.data, st.id
@@ -494,7 +494,7 @@ func upUserSnapshotsFailed() int64 {
 	return -1
 }
 
-func (r *upRun) script(seq []string, rng *rand.Rand) {
+func (r *uplRun) script(seq []string, rng *rand.Rand) {
 	w := r.w
 	for _, s := range seq {
 		r.prov.afterRead, r.prov.before, r.prov.afterwards = nil, nil, nil
@@ -586,7 +586,7 @@ func (r *upRun) script(seq []string, rng *rand.Rand) {
 
 // ---------------------------------------------------------------- concurrent mode
 
-func (r *upRun) concurrent(rng *rand.Rand, rounds int, writers int) error {
+func (r *uplRun) concurrent(rng *rand.Rand, rounds int, writers int) error {
 	w := r.w
 	interval := time.Duration(2+rng.Intn(4)) * time.Millisecond
 	var prng = rand.New(rand.NewSource(rng.Int63()))
